@@ -1265,13 +1265,15 @@ Qed.
 
 Lemma file_index_after_inv ov d s1 : file_inv s1 -> file_inv (fst (file_index_after true ov d s1)).
 Proof.
-  intro H. unfold file_index_after. destruct (is_manifest (d_mt d)); [|now apply file_index_inv].
-  destruct (file_fetch d s1) as [c1|] eqn:Ef; cbn [fst]; [|exact H].
-  destruct (d_dig d =? b_hash c1); cbn [fst]; [|exact H].
-  destruct (file_fetch_inv _ _ _ H Ef) as [_ [Hok _]].
-  pose proof (file_restore_inv ov (b_tl c1) s1 H Hok) as H2.
-  destruct (file_restore true ov (b_tl c1) s1) as [s2 [e|]]; cbn [fst] in *; [exact H2|].
-  now apply file_index_inv.
+  intro H. unfold file_index_after. pose proof (file_index_inv d s1 H) as H2.
+  destruct (file_index d s1) as [s2 r]. cbn [fst] in H2.
+  destruct r as [o|e]; [|exact H2]. destruct o; try exact H2.
+  destruct (is_manifest (d_mt d)); [|exact H2].
+  destruct (file_fetch d s2) as [c1|] eqn:Ef; cbn [fst]; [|exact H2].
+  destruct (d_dig d =? b_hash c1); cbn [fst]; [|exact H2].
+  destruct (file_fetch_inv _ _ _ H2 Ef) as [_ [Hok _]].
+  pose proof (file_restore_inv ov (b_tl c1) s2 H2 Hok) as H3.
+  destruct (file_restore true ov (b_tl c1) s2) as [s3 [e|]]; exact H3.
 Qed.
 
 Lemma titles_ok_limit d c : titles_ok c -> titles_ok (limit_reader d c).
@@ -1366,7 +1368,9 @@ Proof.
     - destruct Hp as [Hp|Hp]; [congruence|]. destruct (get gkey_eqb (gk d) (f_cas s1)); [eauto|congruence]. }
   destruct Hf as (c1 & Hf). rewrite Hf.
   destruct (file_fetch_inv _ _ _ Hinv Hf) as [Hh _]. rewrite Hh, N.eqb_refl.
-  rewrite (file_fetch_unt _ _ _ Hu Hf). cbn [file_restore]. rewrite Hf, Hh, N.eqb_refl.
+  change (file_fetch d (mkFile (f_names s1) (f_d2p s1) (f_disk s1) (f_cas s1) (f_res s1)
+                               (g_index d (succ_of (gk d) c1) (f_graph s1)))) with (file_fetch d s1).
+  rewrite Hf, Hh, N.eqb_refl. rewrite (file_fetch_unt _ _ _ Hu Hf). cbn [file_restore].
   split; [reflexivity | destruct Hu; constructor; auto].
 Qed.
 
@@ -1600,9 +1604,9 @@ Lemma file_alias_witness :
     = [FO OOk; FO OOk; FO (OBytes 2 5)] /\ d_dig w_named = 1.
 Proof. vm_compute. auto. Qed.
 
-(* known (audit F1): restoreDuplicates fails AFTER the manifest was stored -- here the layer
-   entry is titled with a name outside the working directory.  The failed Push has changed
-   the state: Exists answers true, a re-push is already-exists, Predecessors never lists it. *)
+(* known (audit F1): restoreDuplicates fails AFTER the manifest was stored and indexed -- here
+   the layer entry is titled with a name outside the working directory.  The failed Push has
+   changed the state: Exists answers true, a re-push is already-exists, Predecessors lists it. *)
 Definition w_layer := mkDesc 6 1 5 0.
 Definition w_manifest := mkDesc 1 9 20 0.
 Definition w_manifest_blob := mkBlobT 9 20 [(6, 1, 5)] 9 [(6, 1, 5)] [((6, 1, 5), 6)] [((6, 1, 5), 6)].
@@ -1610,7 +1614,7 @@ Lemma file_restore_fails_witness :
   snd (runf (file_step true false false) file_init
             [Push w_layer w_good; Push w_manifest w_manifest_blob; Exists w_manifest;
              Push w_manifest w_manifest_blob; Preds w_layer])
-    = [FO OOk; FE FTraversal; FO (OBool true); FO (OErr EAlreadyExists); FO (OPreds [])].
+    = [FO OOk; FE FTraversal; FO (OBool true); FO (OErr EAlreadyExists); FO (OPreds [(1, 9, 20)])].
 Proof. vm_compute. reflexivity. Qed.
 
 (* ---------- a concrete universe and history (non-vacuity of the OCI hypotheses) ---------- *)
